@@ -178,33 +178,29 @@ pub unsafe fn simd_prefix_search_avx2(
         let cmp_lt = _mm256_cmpgt_epi32(target_unsigned, batch_unsigned);
         let lt_mask = _mm256_movemask_epi8(cmp_lt) as u32;
 
-        let cmp_eq = _mm256_cmpeq_epi32(_mm256_set1_epi32(target_prefix as i32), batch);
-        let eq_mask = _mm256_movemask_epi8(cmp_eq) as u32;
+        let cmp_gt = _mm256_cmpgt_epi32(batch_unsigned, target_unsigned);
+        let gt_mask = _mm256_movemask_epi8(cmp_gt) as u32;
 
-        if lt_mask == 0xFFFFFFFF {
+        // Slots are sorted, so lanes with prefix < target form a leading run and
+        // lanes with prefix > target a trailing run; equal prefixes sit in between.
+        let lt_count = (lt_mask.trailing_ones() / 4) as usize;
+        let le_count = (gt_mask.trailing_zeros() / 4) as usize;
+
+        if lt_count == AVX2_BATCH_SIZE {
             left = batch_start + AVX2_BATCH_SIZE;
             continue;
-        } else if lt_mask == 0 {
+        } else if le_count == 0 {
             right = batch_start;
             continue;
         }
 
-        let first_ge_idx = (lt_mask.trailing_ones() / 4) as usize;
-
-        if first_ge_idx > 0 {
-            left = batch_start + first_ge_idx - 1;
+        // Only narrow on a side where the batch actually shows the boundary: a run of
+        // equal prefixes touching a batch edge may continue outside the batch.
+        if lt_count > 0 {
+            left = batch_start + lt_count;
         }
-        right = batch_start + first_ge_idx.min(7) + 1;
-
-        if eq_mask != 0 {
-            let first_eq_idx = (eq_mask.trailing_zeros() / 4) as usize;
-            let last_eq_idx = if eq_mask.leading_zeros() == 0 {
-                7
-            } else {
-                (31 - eq_mask.leading_zeros()) as usize / 4
-            };
-            left = left.min(batch_start + first_eq_idx);
-            right = right.max(batch_start + last_eq_idx + 1);
+        if le_count < AVX2_BATCH_SIZE {
+            right = batch_start + le_count;
         }
 
         break;
